@@ -252,7 +252,19 @@ fn run<S: Fl>(ctx: &mut Ctx) {
     matpred!("m4", 4, m4, Matrix4);
     // is_zero: vectors by exact equality, quaternions / angles by ulps; is_perpendicular
     for p in 0..4 {
-        for d in [zero, tiny, S::c(0.5)] {
+        for d in [zero, tiny, S::c(0.5), S::default_epsilon() * S::c(0.5), S::default_epsilon() * S::c(1.5), S::default_epsilon() * S::c(10.0),
+                  S::default_epsilon() * S::c(50.0), S::default_epsilon() * S::c(-3.0), S::c(1.0e-6), S::c(-2.0e-5)] {
+            // angles: the default tolerances of Rad / Deg are the scalar's, in every default-tolerance form
+            for (x, y) in [(zero, d), (d, zero), (S::c(1.0), S::c(1.0) + d), (S::c(90.0), S::c(90.0) + d * S::c(64.0))] {
+                let want_a = S::abs_diff_eq(&x, &y, S::default_epsilon());
+                let want_r = S::relative_eq(&x, &y, S::default_epsilon(), S::default_max_relative());
+                let want_u = S::ulps_eq(&x, &y, S::default_epsilon(), S::default_max_ulps());
+                ctx.pred.rec(approx::abs_diff_eq!(Deg(x), Deg(y)) == want_a && approx::abs_diff_eq!(Rad(x), Rad(y)) == want_a
+                    && approx::relative_eq!(Deg(x), Deg(y)) == want_r && approx::relative_eq!(Rad(x), Rad(y)) == want_r
+                    && approx::ulps_eq!(Deg(x), Deg(y)) == want_u && approx::ulps_eq!(Rad(x), Rad(y)) == want_u,
+                    || format!("default-tolerance relations on Deg/Rad<{}>({:?}, {:?}): abs {} rel {} ulps {} expected from the scalar relation; Deg gives {} {} {}", S::NAME, x, y, want_a, want_r, want_u,
+                        approx::abs_diff_eq!(Deg(x), Deg(y)), approx::relative_eq!(Deg(x), Deg(y)), approx::ulps_eq!(Deg(x), Deg(y))));
+            }
             let mut c = vec![zero; 4];
             c[p] = d;
             let v = Vector4::new(c[0], c[1], c[2], c[3]);
